@@ -1,6 +1,7 @@
 package checks
 
 import (
+	"go/printer"
 	"fmt"
 	"os"
 	"go/ast"
@@ -330,6 +331,7 @@ func checkC20(c *core.Ctx) error {
 	}
 	checkSliceBounds(c)
 	checkRawSubslices(c)
+	checkSvdScan(c)
 	checkOptionSwitches(c)
 	checkOptionSpreading(c)
 	checkADGuards(c)
@@ -964,4 +966,199 @@ func checkRawSubslices(c *core.Ctx) {
 		})
 	})
 	c.Analysed["raw_storage_subslices"] = n
+}
+
+// checkSvdScan (C20.R6): in the Golub-Kahan SVD driver a step on the active block B22 = B[p:e, p:e] makes progress
+// only if no diagonal entry of the block other than the last is exactly zero; the scan that handles such entries
+// (zeroRow) therefore has to range over exactly the rows p .. e-2 of the block that is handed to the step. The block
+// is read off the Slice call whose result is passed to golubKahanSVDstep, the scanned index set off the loop header
+// (upward or downward), both as linear forms in the integer variables of the function; a scan that starts one row late
+// or stops one row early leaves a zero diagonal entry in place and the driver spins on a fixed point.
+func checkSvdScan(c *core.Ctx) {
+	c.Rule("C20.R6", "the zero-diagonal scan of the Golub-Kahan SVD driver covers rows p .. e-2 of the block B[p:e] handed to the step", 1)
+	p := c.Pkg("algorithm/svd")
+	cons := "algorithm/svd.golubKahanSVD"
+	if p == nil {
+		c.Unknown("C20.R6", cons, "package loaded", token.NoPos, "not loaded")
+		return
+	}
+	fd := findFuncDecl(p, "golubKahanSVD")
+	if fd == nil {
+		c.Unknown("C20.R6", cons, "function found", token.NoPos, "not found")
+		return
+	}
+	info := p.TypesInfo
+	// linear forms over integer variables
+	type lin map[string]int // variable name (by object id) -> coefficient; "" -> constant
+	// locals defined exactly once by `x := <linear expression>` are inlined (`last := n-q-1; for k := p; k < last; k++`)
+	defs := map[types.Object]ast.Expr{}
+	ndef := map[types.Object]int{}
+	ast.Inspect(fd.Body, func(x ast.Node) bool {
+		if as, ok := x.(*ast.AssignStmt); ok && len(as.Lhs) == len(as.Rhs) {
+			for i, l := range as.Lhs {
+				if id, ok := l.(*ast.Ident); ok {
+					o := info.Defs[id]
+					if o == nil {
+						o = info.Uses[id]
+					}
+					if o != nil {
+						ndef[o]++
+						defs[o] = as.Rhs[i]
+					}
+				}
+			}
+		}
+		if inc, ok := x.(*ast.IncDecStmt); ok {
+			if id, ok := inc.X.(*ast.Ident); ok {
+				if o := info.Uses[id]; o != nil {
+					ndef[o] += 2
+				}
+			}
+		}
+		return true
+	})
+	var linOf func(e ast.Expr) (lin, bool)
+	depth := 0
+	linOf = func(e ast.Expr) (lin, bool) {
+		switch v := ast.Unparen(e).(type) {
+		case *ast.Ident:
+			if o := info.Uses[v]; o != nil {
+				if d, ok := defs[o]; ok && ndef[o] == 1 && depth < 4 {
+					if _, isCall := ast.Unparen(d).(*ast.CallExpr); !isCall {
+						depth++
+						r, ok := linOf(d)
+						depth--
+						if ok {
+							return r, true
+						}
+					}
+				}
+				return lin{fmt.Sprintf("%s@%d", o.Name(), o.Pos()): 1}, true
+			}
+		case *ast.BasicLit:
+			var x int
+			if _, err := fmt.Sscanf(v.Value, "%d", &x); err == nil {
+				return lin{"": x}, true
+			}
+		case *ast.BinaryExpr:
+			a, ok1 := linOf(v.X)
+			b, ok2 := linOf(v.Y)
+			if ok1 && ok2 && (v.Op == token.ADD || v.Op == token.SUB) {
+				r := lin{}
+				for k, x := range a {
+					r[k] += x
+				}
+				for k, x := range b {
+					if v.Op == token.ADD {
+						r[k] += x
+					} else {
+						r[k] -= x
+					}
+				}
+				return r, true
+			}
+		}
+		return nil, false
+	}
+	shift := func(a lin, d int) lin {
+		r := lin{}
+		for k, x := range a {
+			r[k] = x
+		}
+		r[""] += d
+		return r
+	}
+	same := func(a, b lin) bool {
+		for k, x := range a {
+			if b[k] != x {
+				return false
+			}
+		}
+		for k, x := range b {
+			if a[k] != x {
+				return false
+			}
+		}
+		return true
+	}
+	var scan *ast.ForStmt
+	var slice *ast.CallExpr
+	ast.Inspect(fd.Body, func(x ast.Node) bool {
+		switch v := x.(type) {
+		case *ast.ForStmt:
+			has := false
+			ast.Inspect(v.Body, func(y ast.Node) bool {
+				if ce, ok := y.(*ast.CallExpr); ok && calleeName(ce) == "zeroRow" {
+					has = true
+				}
+				return true
+			})
+			// innermost loop containing zeroRow
+			if has {
+				scan = v
+			}
+		case *ast.CallExpr:
+			if calleeName(v) == "golubKahanSVDstep" && len(v.Args) > 0 {
+				// the block argument: a Slice call, directly or through a local defined by one
+				arg := ast.Unparen(v.Args[0])
+				if id, ok := arg.(*ast.Ident); ok {
+					o := info.Uses[id]
+					ast.Inspect(fd.Body, func(y ast.Node) bool {
+						if as, ok := y.(*ast.AssignStmt); ok && len(as.Lhs) == 1 && len(as.Rhs) == 1 {
+							if l, ok := as.Lhs[0].(*ast.Ident); ok && (info.Defs[l] == o || info.Uses[l] == o) {
+								arg = ast.Unparen(as.Rhs[0])
+							}
+						}
+						return true
+					})
+				}
+				if ce, ok := arg.(*ast.CallExpr); ok && strings.HasSuffix(calleeName(ce), "Slice") && len(ce.Args) == 4 {
+					slice = ce
+				}
+			}
+		}
+		return true
+	})
+	if scan == nil || slice == nil {
+		c.Unknown("C20.R6", cons, "scan loop and step block found", fd.Pos(), "no loop calling zeroRow or no Slice handed to golubKahanSVDstep")
+		return
+	}
+	blo, ok1 := linOf(slice.Args[0])
+	bhi, ok2 := linOf(slice.Args[1])
+	// scanned index set [lo, hi] inclusive
+	var lo, hi lin
+	okScan := false
+	if as, ok := scan.Init.(*ast.AssignStmt); ok && len(as.Lhs) == 1 && len(as.Rhs) == 1 {
+		if start, ok := linOf(as.Rhs[0]); ok {
+			if be, ok := scan.Cond.(*ast.BinaryExpr); ok {
+				if bound, ok := linOf(be.Y); ok {
+					if inc, ok := scan.Post.(*ast.IncDecStmt); ok {
+						switch {
+						case inc.Tok == token.INC && be.Op == token.LSS:
+							lo, hi, okScan = start, shift(bound, -1), true
+						case inc.Tok == token.INC && be.Op == token.LEQ:
+							lo, hi, okScan = start, bound, true
+						case inc.Tok == token.DEC && be.Op == token.GTR:
+							lo, hi, okScan = shift(bound, 1), start, true
+						case inc.Tok == token.DEC && be.Op == token.GEQ:
+							lo, hi, okScan = bound, start, true
+						}
+					}
+				}
+			}
+		}
+	}
+	if !ok1 || !ok2 || !okScan {
+		c.Unknown("C20.R6", cons, "bounds are linear in the integer variables", scan.Pos(), "the scan loop header or the Slice bounds are not of the counted linear form")
+		return
+	}
+	c.Check(same(lo, blo) && same(hi, shift(bhi, -2)), "C20.R6", cons, "scan covers rows p .. e-2 of the step block", scan.Pos(),
+		fmt.Sprintf("the block handed to the step is B[%s:%s] but the zero-diagonal scan ranges over a different set of rows (header `%s; %s; %s`): a zero diagonal entry of the block that the scan skips stays in place, the step then changes nothing and the driver does not terminate",
+			exprStr(slice.Args[0]), exprStr(slice.Args[1]), nodeStr(scan.Init), exprStr(scan.Cond), nodeStr(scan.Post)))
+}
+
+func nodeStr(n ast.Node) string {
+	var b strings.Builder
+	printer.Fprint(&b, token.NewFileSet(), n)
+	return b.String()
 }
